@@ -197,3 +197,12 @@ class ResultData(Contract):
                 yield f"fitted_data_is_scale_matrix_clp[{lab}]", L.and_(*fit_c)
                 yield f"constrained_clps_are_zero[{lab}]", L.and_(*clp0_c)
                 yield f"clps_by_label_and_relations[{lab}]", L.and_(*clprel_c)
+
+
+def _big_sweep(self, tier, seed):
+    from contracts.big_configs import pipeline_sweep
+
+    return pipeline_sweep(self, tier, seed)
+
+
+ResultData.bounded_checks = _big_sweep
